@@ -18,34 +18,34 @@ import (
 // scriptedServer is an adversarial/recording MCP peer for the library clients. It answers the
 // handshake correctly and hands every other request to onCall; it never uses library types.
 type scriptedServer struct {
-	mode      string // sj | ss | ls | io
-	fab       *memnet.Fabric
-	c2s, s2c  *memnet.Pipe
-	onCall    func(w scriptWriter)
-	onRequest func(msg map[string]interface{}, raw string, w scriptWriter) bool // return true when answered
-	initReply func(id string) string                                            // custom initialize result (raw JSON of the whole response)
-	initHook  func(w scriptWriter, id string) bool                              // custom handling of initialize
-	noInitted bool                                                              // refuse notifications/initialized
-	received  []string                                                          // every JSON-RPC message received
-	httpLog   []string
-	stream    *memnet.ResponseWriter // legacy SSE / GET stream
-	streamUp  hx.Flag
-	stopped   hx.Flag
-	sid       string
-	getStatus int // status for GET on Streamable (0 = serve a stream)
-	onStream  func(w scriptWriter) // called once the background stream is open
-	childExit func()               // stdio: effect of the child process exiting
-	gateConnect *hx.Flag           // legacy SSE: the server stalls before the headers of the connect GET until set
-	gateInit    *hx.Flag           // the server withholds its answer to initialize until set
+	mode        string // sj | ss | ls | io
+	fab         *memnet.Fabric
+	c2s, s2c    *memnet.Pipe
+	onCall      func(w scriptWriter)
+	onRequest   func(msg map[string]interface{}, raw string, w scriptWriter) bool // return true when answered
+	initReply   func(id string) string                                            // custom initialize result (raw JSON of the whole response)
+	initHook    func(w scriptWriter, id string) bool                              // custom handling of initialize
+	noInitted   bool                                                              // refuse notifications/initialized
+	received    []string                                                          // every JSON-RPC message received
+	httpLog     []string
+	stream      *memnet.ResponseWriter // legacy SSE / GET stream
+	streamUp    hx.Flag
+	stopped     hx.Flag
+	sid         string
+	getStatus   int                  // status for GET on Streamable (0 = serve a stream)
+	onStream    func(w scriptWriter) // called once the background stream is open
+	childExit   func()               // stdio: effect of the child process exiting
+	gateConnect *hx.Flag             // legacy SSE: the server stalls before the headers of the connect GET until set
+	gateInit    *hx.Flag             // the server withholds its answer to initialize until set
 }
 
 // scriptWriter writes on the channel on which the answer to the current request is expected.
 type scriptWriter interface {
-	Frame(jsonText string)                // one well-formed frame of this transport
-	Raw(bytes string)                     // raw bytes (flushed)
-	WritePartial(raw string, end error)   // raw bytes, then the connection ends with end
+	Frame(jsonText string)                   // one well-formed frame of this transport
+	Raw(bytes string)                        // raw bytes (flushed)
+	WritePartial(raw string, end error)      // raw bytes, then the connection ends with end
 	HTTP(status int, ct string, body string) // HTTP-level answer (HTTP transports only; no-op otherwise)
-	End()                                 // orderly end of the answer channel
+	End()                                    // orderly end of the answer channel
 }
 
 func newScriptedServer(mode string) *scriptedServer {
@@ -234,7 +234,10 @@ func (s *scriptedServer) initAnswer(idRaw string) string {
 	return fmt.Sprintf(`{"jsonrpc":"2.0","id":%s,"result":%s}`, idRaw, scriptInitResult)
 }
 
-type ctxProbe struct{ ctx context.Context; stop *hx.Flag }
+type ctxProbe struct {
+	ctx  context.Context
+	stop *hx.Flag
+}
 
 //go:norace
 func (p ctxProbe) Ready() bool {
@@ -307,10 +310,10 @@ func (s *scriptedServer) serveLegacy(w *memnet.ResponseWriter, r *http.Request, 
 
 type pipeAnswer struct{ s *scriptedServer }
 
-func (a pipeAnswer) Frame(j string)       { a.s.s2c.Write([]byte(j + "\n")) }
-func (a pipeAnswer) Raw(b string)         { a.s.s2c.Write([]byte(b)) }
+func (a pipeAnswer) Frame(j string)           { a.s.s2c.Write([]byte(j + "\n")) }
+func (a pipeAnswer) Raw(b string)             { a.s.s2c.Write([]byte(b)) }
 func (a pipeAnswer) HTTP(int, string, string) {}
-func (a pipeAnswer) End()                 { a.s.s2c.CloseWrite() }
+func (a pipeAnswer) End()                     { a.s.s2c.CloseWrite() }
 func (a pipeAnswer) WritePartial(raw string, end error) {
 	if raw != "" {
 		a.s.s2c.Write([]byte(raw))
